@@ -1,6 +1,7 @@
 /-
 Lemmas/ConnReader.lean — on every valid (Spec-encoded) complete message set the byte-level Conn reader model returns
-the reference decoder's records, up to the null/empty distinction this path does not keep (`loosenRec`).
+the reference decoder's records EXACTLY (null and empty keys / values / header values are told apart since fix 4db07b4;
+before it the statement held only up to `loosenRec`, null ≈ empty).
 -/
 import KafkaVerif.Model.ConnReader
 import KafkaVerif.Lemmas.RecordReader
@@ -8,69 +9,58 @@ import KafkaVerif.Lemmas.RecordReader
 namespace KV.Model.ConnReader
 open KV KV.RW KV.Spec.RB KV.Model.RecordReader
 
-def loosenOpt : Option Bytes → Option Bytes
-  | some [] => none
-  | x => x
-
-def loosenHdr (h : Hdr) : Hdr := ⟨h.key, loosenOpt h.value⟩
-
-/-- what the Conn path can tell about a record: null and empty keys / values / header values look the same -/
-def loosenRec (r : Rec) : Rec :=
-  { r with key := loosenOpt r.key, value := loosenOpt r.value, headers := r.headers.map loosenHdr }
-
 @[simp] theorem connCodecOf_eq (a : Int) : connCodecOf a = codecOf a := by
   simp only [connCodecOf, codecOf, Gen.RecordConsts.legacyCompressionMask]; rfl
 
-theorem loosenOpt_some_ne (b : Bytes) (hb : b ≠ []) : loosenOpt (some b) = some b := by
-  cases b with
-  | nil => exact absurd rfl hb
-  | cons _ _ => rfl
-
-theorem loosenOpt_getD (k : Bytes) : (loosenOpt (some k)).getD [] = k := by
-  cases k <;> rfl
-
 theorem connVarBytes_varbytes (b : Option Bytes) (r : Bytes) :
-    connVarBytes (varbytes b ++ r) = some (loosenOpt b, r) := by
+    connVarBytes (varbytes b ++ r) = some (b, r) := by
   cases b with
-  | none => simp [varbytes, connVarBytes, readVarint_varint, loosenOpt]
+  | none => simp [varbytes, connVarBytes, readVarint_varint]
   | some b =>
     simp only [varbytes, connVarBytes, List.append_assoc, readVarint_varint]
-    by_cases hb : b = []
-    · subst hb; simp [loosenOpt]
-    · have hpos : 0 < b.length := List.length_pos_iff.mpr hb
-      have h2 : ¬ ((b.length : Int) ≤ 0) := by omega
-      simp [h2, takeN_append, loosenOpt_some_ne b hb, hb]
+    have h2 : ¬ ((b.length : Int) < 0) := by omega
+    simp [h2, takeN_append]
 
-theorem connHeaderRec_encHdr (h : Hdr) (r : Bytes) : connHeaderRec (encHdr h ++ r) = some (loosenHdr h, r) := by
+theorem connHeaderRec_encHdr (h : Hdr) (r : Bytes) : connHeaderRec (encHdr h ++ r) = some (h, r) := by
   rw [show encHdr h ++ r = varbytes (some h.key) ++ (varbytes h.value ++ r) from by simp [encHdr, varbytes]]
-  simp only [connHeaderRec, connVarBytes_varbytes, loosenOpt_getD, loosenHdr]
+  simp only [connHeaderRec, connVarBytes_varbytes, Option.getD_some]
 
 theorem connHeaders_encHdrs (hs : List Hdr) (r : Bytes) :
-    connHeaders hs.length (encHdrs hs ++ r) = some (hs.map loosenHdr, r) := by
+    connHeaders hs.length (encHdrs hs ++ r) = some (hs, r) := by
   induction hs with
   | nil => simp [connHeaders, encHdrs]
   | cons h hs ih => simp [connHeaders, encHdrs, List.append_assoc, connHeaderRec_encHdr, ih]
 
 theorem connRecordV2_encRec (base first : Int) (x : RecV2) (r : Bytes) :
     connRecordV2 base first (encRec x ++ r) =
-      some (loosenRec ⟨base + x.offDelta, first + x.tsDelta, x.key, x.value, x.headers⟩, r) := by
+      some (⟨base + x.offDelta, first + x.tsDelta, x.key, x.value, x.headers⟩, r) := by
   simp only [encRec, recBody, connRecordV2, List.append_assoc, List.cons_append, readVarint_varint, connVarBytes_varbytes]
   cases hh : x.headers with
-  | nil => simp [encHdrs, loosenRec]
+  | nil => simp [encHdrs]
   | cons h hs =>
     have hpos : ((h :: hs).length : Int) > 0 := by simp only [List.length_cons]; omega
     have := connHeaders_encHdrs (h :: hs) r
     simp only [hpos, if_true]
     simp only [List.length_cons] at this
-    simp [this, loosenRec]
+    simp [this]
 
 theorem connRecordsV2_encRecs (f : FrameV2) (xs : List RecV2) (r : Bytes) :
-    connRecordsV2 f.baseOffset f.firstTs xs.length (encRecs xs ++ r) = some ((xs.map (recOfV2 f)).map loosenRec, r) := by
+    connRecordsV2 f.baseOffset f.firstTs xs.length (encRecs xs ++ r) = some (xs.map (recOfV2c f), r) := by
   induction xs with
   | nil => simp [connRecordsV2, encRecs]
   | cons x xs ih =>
     simp only [List.length_cons, connRecordsV2, encRecs, List.append_assoc, connRecordV2_encRec, ih, List.map_cons]
-    simp [recOfV2]
+    simp [recOfV2c]
+
+/-- the masks message_reader.go tests are the timestamp-type bit of the Spec (breaks when the test disappears) -/
+@[simp] theorem connLogAppendV2_eq (a : Int) : connLogAppendV2 a = logAppend a := by
+  simp [connLogAppendV2, connMaskTest, Gen.RecordConsts.legacyStampMasksV2, logAppend]
+@[simp] theorem connLogAppendV1_eq (a : Int) : connLogAppendV1 a = logAppend a := by
+  simp [connLogAppendV1, connMaskTest, Gen.RecordConsts.legacyStampMasksV1, logAppend]
+
+theorem connStampV2_spec (f : FrameV2) (xs : List RecV2) (r : Bytes) :
+    connStampV2 f.attributes f.maxTs (some (xs.map (recOfV2c f), r)) = some (xs.map (recOfV2 f), r) := by
+  simp [connStampV2, List.map_map, Function.comp_def, recOfV2]
 
 /-- the header fields after the CRC, followed by anything: the "payload" is everything that follows -/
 theorem readFrameBody_append (f : FrameV2) (h : f.WF) (rest : Bytes) :
@@ -81,7 +71,7 @@ theorem readFrameBody_append (f : FrameV2) (h : f.WF) (rest : Bytes) :
 
 theorem connBatchV2_encFrame (crc : Bytes → Nat) (hcrc : ∀ b, crc b < M32) (dec : Int → Bytes → Option Bytes)
     (f : FrameV2) (xs : List RecV2) (h : GoodBatch dec f xs) (rest : Bytes) :
-    connBatchV2 dec (encFrame crc f ++ rest) = some ((xs.map (recOfV2 f)).map loosenRec, rest) := by
+    connBatchV2 dec (encFrame crc f ++ rest) = some (xs.map (recOfV2 f), rest) := by
   have hw := h.wf
   obtain ⟨h1, h2, _, _, _, _, _, _, _, _, h11⟩ := h.wf
   have hlen : InRange M32 ((9 + (frameBody f).length : Nat) : Int) := by
@@ -94,7 +84,7 @@ theorem connBatchV2_encFrame (crc : Bytes → Nat) (hcrc : ∀ b, crc b < M32) (
   · have hp : f.payload = encRecs xs := by
       have := h.payload; simp only [hc, if_true, Option.some.injEq] at this; exact this
     have hx : ¬ ((xs.length : Int) < 0) := by omega
-    simp only [hc, if_true, hp, Int.toNat_natCast, connRecordsV2_encRecs, hx, if_false]
+    simp only [hc, if_true, hp, Int.toNat_natCast, connRecordsV2_encRecs, hx, if_false, connStampV2_spec]
   · have hp : dec (codecOf f.attributes) f.payload = some (encRecs xs) := by
       have := h.payload; simp only [hc, if_false] at this; exact this
     have hbr : ((9 + (frameBody f).length : Nat) : Int) - 49 = (f.payload.length : Int) := by
@@ -103,22 +93,19 @@ theorem connBatchV2_encFrame (crc : Bytes → Nat) (hcrc : ∀ b, crc b < M32) (
     have hr := connRecordsV2_encRecs f xs []
     simp only [List.append_nil] at hr
     have hx : ¬ ((xs.length : Int) < 0) := by omega
-    simp only [hc, if_false, hbr, hnn, Int.toNat_natCast, takeN_append, hp, hr, hx]
+    simp only [hc, if_false, hbr, hnn, Int.toNat_natCast, takeN_append, hp, hr, hx, connStampV2_spec]
 
 theorem connBytes_nbytes (b : Option Bytes) (r : Bytes) (h : 2 * optLen b < M32) :
-    connBytes (nbytes b ++ r) = some (loosenOpt b, r) := by
+    connBytes (nbytes b ++ r) = some (b, r) := by
   cases b with
   | none =>
     have : InRange M32 (-1) := by unfold InRange M32; omega
-    simp [nbytes, connBytes, readI32_i32 _ _ this, loosenOpt]
+    simp [nbytes, connBytes, readI32_i32 _ _ this]
   | some b =>
     have hr : InRange M32 (b.length : Int) := by unfold InRange; simp [optLen] at h; omega
     simp only [nbytes, connBytes, List.append_assoc, readI32_i32 _ _ hr]
-    by_cases hb : b = []
-    · subst hb; simp [loosenOpt]
-    · have hpos : 0 < b.length := List.length_pos_iff.mpr hb
-      have h2 : ¬ ((b.length : Int) ≤ 0) := by omega
-      simp [h2, takeN_append, loosenOpt_some_ne b hb, hb]
+    have h2 : ¬ ((b.length : Int) < 0) := by omega
+    simp [h2, takeN_append]
 
 theorem connHeaderV1_encMsg (crc : Bytes → Nat) (hcrc : ∀ b, crc b < M32) (m : Msg) (h : m.WF) (rest : Bytes) :
     connHeaderV1 (encMsg crc m ++ rest) =
@@ -139,14 +126,14 @@ theorem connHeaderV1_encMsg (crc : Bytes → Nat) (hcrc : ∀ b, crc b < M32) (m
       readI64_i64 _ _ ht]
 
 theorem connPlainV1_spec (m : Msg) (h : m.WF) (rest : Bytes) :
-    connPlainV1 m.offset m.ts (nbytes m.key ++ (nbytes m.value ++ rest)) = some (loosenRec (recOfMsg m), rest) := by
+    connPlainV1 m.offset m.ts (nbytes m.key ++ (nbytes m.value ++ rest)) = some (recOfMsg m, rest) := by
   have hk : 2 * optLen m.key < M32 := by have := h.2.2.2.2.2; omega
   have hv : 2 * optLen m.value < M32 := by have := h.2.2.2.2.2; omega
-  simp [connPlainV1, connBytes_nbytes _ _ hk, connBytes_nbytes _ _ hv, loosenRec, recOfMsg]
+  simp [connPlainV1, connBytes_nbytes _ _ hk, connBytes_nbytes _ _ hv, recOfMsg]
 
 theorem connInner_encSet (c : Crcs) (h1 : ∀ b, c.ieee b < M32) (inner : List Msg) (hwf : ∀ x ∈ inner, x.WF)
     (fuel : Nat) (hf : inner.length ≤ fuel) :
-    connInner fuel (encSet c (inner.map Entry.msg)) = some (inner.map fun x => loosenRec (recOfMsg x)) := by
+    connInner fuel (encSet c (inner.map Entry.msg)) = some (inner.map recOfMsg) := by
   induction inner generalizing fuel with
   | nil => cases fuel <;> simp [connInner, encSet]
   | cons m ms ih =>
@@ -169,22 +156,22 @@ theorem connInner_encSet (c : Crcs) (h1 : ∀ b, c.ieee b < M32) (inner : List M
         simp
 
 theorem lastOffsetOf_map (inner : List Msg) :
-    lastOffsetOf (inner.map fun x => loosenRec (recOfMsg x)) = lastOffset inner := by
+    lastOffsetOf (inner.map recOfMsg) = lastOffset inner := by
   induction inner with
   | nil => rfl
   | cons a t ih =>
     cases t with
-    | nil => simp [lastOffsetOf, lastOffset, loosenRec, recOfMsg]
+    | nil => simp [lastOffsetOf, lastOffset, recOfMsg]
     | cons b t' => simp only [List.map_cons, lastOffsetOf, lastOffset] at ih ⊢; exact ih
 
 theorem connMessageV1_plain (crc : Bytes → Nat) (hcrc : ∀ b, crc b < M32) (dec : Int → Bytes → Option Bytes)
     (m : Msg) (h : m.WF) (hc : codecOf m.attributes = 0) (rest : Bytes) :
-    connMessageV1 dec (encMsg crc m ++ rest) = some ([loosenRec (recOfMsg m)], rest) := by
+    connMessageV1 dec (encMsg crc m ++ rest) = some ([recOfMsg m], rest) := by
   simp only [connMessageV1, connHeaderV1_encMsg crc hcrc m h rest, connCodecOf_eq, hc, if_true, connPlainV1_spec m h rest]
 
 theorem connMessageV1_wrapper (c : Crcs) (h1 : ∀ b, c.ieee b < M32) (dec : Int → Bytes → Option Bytes)
     (m : Msg) (inner : List Msg) (h : GoodWrapper c dec m inner) (hkey : m.key = none) (rest : Bytes) :
-    connMessageV1 dec (encMsg c.ieee m ++ rest) = some ((wrapperRecs m inner).map loosenRec, rest) := by
+    connMessageV1 dec (encMsg c.ieee m ++ rest) = some (wrapperRecs m inner, rest) := by
   obtain ⟨v, hv, hd⟩ := h.value
   have hvl : 2 * optLen m.value < M32 := by have := h.wf.2.2.2.2.2; omega
   have hvr : InRange M32 (v.length : Int) := by unfold InRange; simp [hv, optLen] at hvl; omega
@@ -195,19 +182,22 @@ theorem connMessageV1_wrapper (c : Crcs) (h1 : ∀ b, c.ieee b < M32) (dec : Int
   simp only [connMessageV1, connHeaderV1_encMsg c.ieee h1 m h.wf rest, connCodecOf_eq, h.codec, if_false, hkey, hv, nbytes,
     List.append_assoc]
   rw [← h4, takeN_append]
+  have hon : (decide (m.magic = 1) && logAppend m.attributes) = logAppend m.attributes := by simp [h.magic]
   simp only [readI32_i32 _ _ hvr, hnn, if_false, Int.toNat_natCast, takeN_append, hd, hin, lastOffsetOf_map,
-    wrapperRecs, List.map_map]
+    wrapperRecs, List.map_map, connLogAppendV1_eq, hon]
   congr 2
   apply List.map_congr_left
   intro x _
-  simp only [Function.comp, loosenRec, recOfMsg, Rec.mk.injEq, and_true, List.map_nil]
+  simp only [Function.comp]
+  congr 1
+  simp only [recOfMsg, Rec.mk.injEq, and_true, true_and]
   omega
 
 theorem connStep_entry (c : Crcs) (h1 : ∀ b, c.ieee b < M32) (h2 : ∀ b, c.castagnoli b < M32)
     (dec : Int → Bytes → Option Bytes) (e : Entry) (g : Bool × List Rec) (hg : GoodEntry c dec e g)
     (hkey : ∀ m, e = .msg m → codecOf m.attributes ≠ 0 → m.key = none) (rest : Bytes) (fuel : Nat) :
     connReadSet dec (fuel + 1) (encEntry c e ++ rest) =
-      (connReadSet dec fuel rest).map (fun t => g.2.map loosenRec ++ t) := by
+      (connReadSet dec fuel rest).map (fun t => g.2 ++ t) := by
   cases hbs : encEntry c e ++ rest with
   | nil =>
     have := encEntry_length_ge17 c e
@@ -245,7 +235,7 @@ theorem connStep_entry (c : Crcs) (h1 : ∀ b, c.ieee b < M32) (h2 : ∀ b, c.ca
 theorem connReadSet_encSet (c : Crcs) (h1 : ∀ b, c.ieee b < M32) (h2 : ∀ b, c.castagnoli b < M32)
     (dec : Int → Bytes → Option Bytes) (es : List Entry) (gs : List (Bool × List Rec)) (h : AllGood c dec es gs)
     (hkey : ∀ m, Entry.msg m ∈ es → codecOf m.attributes ≠ 0 → m.key = none) (fuel : Nat) (hf : es.length ≤ fuel) :
-    connReadSet dec fuel (encSet c es) = some ((gs.flatMap (·.2)).map loosenRec) := by
+    connReadSet dec fuel (encSet c es) = some (gs.flatMap (·.2)) := by
   induction h generalizing fuel with
   | nil => cases fuel <;> simp [connReadSet, encSet]
   | cons hg _ ih =>
